@@ -14,7 +14,6 @@ Variable syncp : key -> bool.
 Variable order : N -> key -> list dep -> list dep.
 Hypothesis Hrank : wf_rank rules rank.
 Hypothesis Hdisc : forall k, r_disc (rules k) = [].
-Hypothesis Hsingle : forall k, r_single (rules k) = [].
 Hypothesis Hord : forall k, In RReq (ord k).
 Hypothesis Horder : wf_order order.
 
@@ -30,7 +29,7 @@ Theorem refines_spec_values env fuel ss k ss' ifuel pfuel s sched sf m : (rank k
 Proof.
   intros Hk HA Hb Hh Hi Hn.
   rewrite (c01_incremental_eq_clean_thm rules env F order rank (fixedR rules) (fixedR_ok rules) Hrank nodisc_wf_disc Horder fuel ss k ss' Hk HA Hb).
-  exact (proj1 (build_values_clean rules F rank ord syncp Hrank Hdisc Hsingle Hord env ifuel pfuel fuel s k sched sf m Hh Hi Hn) Hk).
+  exact (proj1 (build_values_clean rules F rank ord syncp Hrank Hdisc Hord env ifuel pfuel fuel s k sched sf m Hh Hi Hn) Hk).
 Qed.
 
 (* the same history of builds run by the specification engine *)
@@ -65,7 +64,7 @@ Theorem refines_spec_history fuel bs ssf vs1 sf vs2 : (forall b, In b bs -> (ran
 Proof.
   intros Hrk H1 H2.
   rewrite (spec_builds_clean fuel bs init_state ssf vs1 (AtRest_init F (fixedR rules)) H1 Hrk).
-  exact (proj1 (history_values_clean rules F rank ord syncp Hrank Hdisc Hsingle Hord fuel bs init_istate sf vs2 (HInv_init rules F) H2 Hrk)).
+  exact (proj1 (history_values_clean rules F rank ord syncp Hrank Hdisc Hord fuel bs init_istate sf vs2 (HInv_init rules F) H2 Hrk)).
 Qed.
 End Ref.
 
@@ -79,7 +78,7 @@ Lemma srun7_eq : spec_builds R7 mixF order_id 5 init_state H7 = Some (send7, sva
 Proof. vm_compute. reflexivity. Qed.
 Example history7_refines : vals7 = svals7.
 Proof.
-  pose proof (refines_spec_history R7 mixF rank6 ord0 all_sync order_id R7_ranked R7_nodisc R7_nosingle ord0_ok order_id_ok 5 H7 send7 svals7 end7 vals7 H7_ranks) as H.
+  pose proof (refines_spec_history R7 mixF rank6 ord0 all_sync order_id R7_ranked R7_nodisc ord0_ok order_id_ok 5 H7 send7 svals7 end7 vals7 H7_ranks) as H.
   specialize (H srun7_eq). specialize (H run7_eq). exact H.
 Qed.
 Example history7_refines_computed : vals7 = svals7 /\ length svals7 = 5%nat /\ ~ In None svals7.
